@@ -159,14 +159,25 @@ void c10_case(Tape& t, Ctx& ctx) {
           if (shrunk) nt = true;
           break;
         }
-        case 5: {  // evaluation at generated times/orders
+        case 5: {  // evaluation at generated times/orders, incl. sweeps that arrive exactly on a knot from the piece to its left
           oname = "evaluate";
-          for (int q = 0; q < 3; ++q) {
+          const auto& bk = obj->getTrajectory().getBreakpoints();
+          for (int q = 0; q < 4; ++q) {
             double a0 = obj->getStartTime(), a1 = obj->getEndTime();
             double tq = a0 + (a1 - a0) * t.range(0, 64) / 64.0;
+            if (q >= 1 && t.flag()) {  // a knot, preceded (q-1) by whatever was evaluated before: forward / backward sampling patterns
+              int j = t.range(0, N);
+              tq = bk[j];
+              if (q == 1 && j >= 1) (void)obj->getTrajectory().evaluate(0.5 * (bk[j - 1] + bk[j]), t.range(0, nc));  // previous query in the piece to the left
+            }
             int k = t.range(0, nc);
             auto v1 = obj->getTrajectory().evaluate(tq, k), v2 = fresh->getTrajectory().evaluate(tq, k);
             VCHECK(ctx, vec_same_bits(v1, v2), "reused-differs", SplineOf<D, S>::name() << " dim=" << D << ": evaluate(t=" << hexd(tq) << ", k=" << k << ") on the reused object differs from a fresh object (N=" << N << ")");
+            // read-only queries never change a later answer: an object without ANY query history must agree too
+            Spline nohist = cur_by_points ? Spline(cur.time_points(), cur.P, cur.bc) : Spline(cur.T, cur.P, cur.t0, cur.bc);
+            auto v3 = nohist.getTrajectory().evaluate(tq, k);
+            VCHECK(ctx, vec_same_bits(v1, v3), "query-changes-later-result",
+                   SplineOf<D, S>::name() << " dim=" << D << ": evaluate(t=" << hexd(tq) << ", k=" << k << ") depends on the evaluations made before it: " << g17(v1(0)) << " vs " << g17(v3(0)) << " on an object with no query history (N=" << N << ")");
           }
           break;
         }
